@@ -29,7 +29,7 @@ def cases(tier, seed):
         if not F["md"] and r.random() < 0.7:
             um = set()
             F["md"] = [gen.gen_metadata(r, um) for _ in range(r.choice([1, 2]))]
-        natural = ["bad_root_metadata", "bad_node_metadata", "collision_with_body"]
+        natural = ["bad_root_metadata", "bad_node_metadata", "collision_with_body", "renamed_node_over"]
         yield {"trees": {"F": F, "R": R, "O": other}, "append": ap, "natural": natural, "maxk": 60 if tier == "quick" else 200}
 
 
@@ -131,6 +131,21 @@ def run_both(drv, case):
                 paths = [p for p in idx if p]
                 tgt = idx[sorted(paths)[-1]] if paths else rootR
                 tgt.metadata = emdfile.Metadata(name="zz_bad", data={"x": {1, 2}})
+            if natural == "renamed_node_over":
+                # append-over of a tree in which a node was RENAMED after it was placed (its name no longer matches its
+                # place in the tree) to the name of a sibling the file holds: the writer refuses; nothing may be lost
+                a = {"target": [], "mode": "ao", "tree": True, "emdpath": None}
+                done = False
+                for p in sorted(idx):
+                    if not p or p not in fpaths:
+                        continue
+                    sibs = [q[-1] for q in fpaths if len(q) == len(p) and q[:-1] == p[:-1] and q != p]
+                    if sibs:
+                        idx[p].name = sibs[0]
+                        done = True
+                        break
+                if not done:
+                    return None, None, None
             if natural == "collision_with_body":
                 # a new child whose name is that of a dataset / group the node's own body holds in the file
                 done = False
@@ -190,12 +205,12 @@ def run_both(drv, case):
         points += [(k, None) for k in range(min(total, case["maxk"]))]
         for k, nat in points:
             work, inj, exc = attempt(k, nat)
-            na = mutation_level(work, inj, (not over) or nat is not None)
+            na = mutation_level(work, inj, ((not over) or nat is not None) and nat != "renamed_node_over")
             if exc is None:
                 continue
             after, w = node_table(work)
             v = {"k": k if nat is None else nat, "what": (inj.log[k] if k is not None and k < len(inj.log) else nat),
-                 "over": over and nat is None}
+                 "over": (over and nat is None) or nat == "renamed_node_over", "natural": nat}
             if after is None:
                 v["file_unreadable"] = True
                 verdicts.append(v); continue
@@ -255,7 +270,7 @@ def oracle(case, obs):
             return {"non_additive_mutation_in_a_plain_append": v["non_additive"], "failure_point": v["k"]}
         dm = damage(v)
         if dm:
-            fails.append({"failure_point": v["k"], "mutation": v["what"], "append_over": v["over"],
+            fails.append({"failure_point": v["k"], "mutation": v["what"], "append_over": v["over"], "natural": v.get("natural"),
                           "damage": [[k, p] for k, p in dm], "replaced_paths": v.get("replaced_paths", [])})
     if not fails:
         return None
@@ -275,6 +290,10 @@ def known_match(case, fail, finding):
         # metadata, and scratch groups. NOT covered: any damage in append mode, to other trees, or to paths the runtime tree
         # does not reach.
         if not fail.get("append_over"):
+            return False
+        if fail.get("natural") == "renamed_node_over" and any(kind in ("lost", "unreadable", "scratch", "file_unreadable") for kind, _ in fail["damage"]):
+            # a renamed node is refused BEFORE the old group is parked: nothing can be lost and no scratch group can exist
+            # (nodes replaced earlier in the same save have their new content: that part is this finding)
             return False
         replaced = [tuple(p) for p in fail.get("replaced_paths", [])]
         def covered(p):
